@@ -124,9 +124,18 @@ type vC32Wallet struct {
 	class string
 }
 
-func vC32RandAddress(rng *rand.Rand) vC32Wallet {
+// vC32RandAddress makes a wallet. NewAddressFromSeed contains the repository's
+// own print/parse assertion; if that fires it is reported (R1) and the wallet
+// is built without it so that the run continues.
+func (s *vC32State) randAddress() vC32Wallet {
+	rng := s.rng
 	if rng.Intn(4) != 0 {
-		return vC32Wallet{common.NewAddressFromSeed(vC32RandBytes(rng, 64)), "seed"}
+		seed := vC32RandBytes(rng, 64)
+		var a common.Address
+		if s.guard("common.NewAddressFromSeed", "seed", map[string]any{"seed": hex.EncodeToString(seed)}, func() { a = common.NewAddressFromSeed(seed) }) {
+			return vC32Wallet{a, "seed"}
+		}
+		return vC32Wallet{common.NewAddressFromSeedInternalVanish(seed), "seed"}
 	}
 	spend, c1 := vC32RandPrivate(rng)
 	view, c2 := vC32RandPrivate(rng)
@@ -271,15 +280,15 @@ func vC32RandMask(rng *rand.Rand) uint64 {
 }
 
 type vC32Doc struct {
-	K  crypto.Key                  `json:"k"`
-	KP *crypto.Key                 `json:"kp"`
-	H  crypto.Hash                 `json:"h"`
-	HL []crypto.Hash               `json:"hl"`
-	S  crypto.Signature            `json:"s"`
-	SP *crypto.Signature           `json:"sp"`
-	C  crypto.CosiSignature        `json:"c"`
-	CP *crypto.CosiSignature       `json:"cp"`
-	KM map[string]crypto.Key       `json:"km"`
+	K  crypto.Key                     `json:"k"`
+	KP *crypto.Key                    `json:"kp"`
+	H  crypto.Hash                    `json:"h"`
+	HL []crypto.Hash                  `json:"hl"`
+	S  crypto.Signature               `json:"s"`
+	SP *crypto.Signature              `json:"sp"`
+	C  crypto.CosiSignature           `json:"c"`
+	CP *crypto.CosiSignature          `json:"cp"`
+	KM map[string]crypto.Key          `json:"km"`
 	SM []map[uint16]*crypto.Signature `json:"sm"`
 }
 
@@ -652,27 +661,28 @@ func (s *vC32State) craftedAddress(pool []vC32Wallet) {
 	rng := s.rng
 	spend := vC32RandBytes(rng, 32)
 	view := vC32RandBytes(rng, 32)
-	class := "random-bytes-as-keys"
+	kclass := "random-bytes-as-keys"
+	class := "canonical-text"
 	switch rng.Intn(10) {
 	case 0, 1:
 		w := pool[rng.Intn(len(pool))]
 		spend = w.addr.PublicSpendKey[:]
-		class = "valid-spend-random-view"
+		kclass = "valid-spend-random-view"
 	case 2, 3:
 		w := pool[rng.Intn(len(pool))]
 		view = w.addr.PublicViewKey[:]
-		class = "random-spend-valid-view"
+		kclass = "random-spend-valid-view"
 	case 4:
 		w, v := pool[rng.Intn(len(pool))], pool[rng.Intn(len(pool))]
 		spend, view = w.addr.PublicSpendKey[:], v.addr.PublicViewKey[:]
-		class = "valid-keys-of-two-wallets"
+		kclass = "valid-keys-of-two-wallets"
 	case 5:
 		// low-order / non-canonical / leading-zero encodings
 		spend = vC32RandFixed(rng, 32)
 		if rng.Intn(2) == 0 {
 			view = vC32RandFixed(rng, 32)
 		}
-		class = "structured-bytes-as-keys"
+		kclass = "structured-bytes-as-keys"
 	}
 	prefix, sumPrefix := common.MainAddressPrefix, common.MainAddressPrefix
 	shape := rng.Intn(12)
@@ -680,13 +690,13 @@ func (s *vC32State) craftedAddress(pool []vC32Wallet) {
 	switch shape {
 	case 0:
 		sumPrefix = ""
-		class += "+checksum-without-prefix"
+		class = "checksum-without-prefix"
 	case 1:
 		prefix, sumPrefix = "XIM", "XIM"
-		class += "+other-network"
+		class = "other-network"
 	case 2:
 		prefix = [...]string{"", "X", "XI", "xin", "XINXIN", "XIN "}[rng.Intn(6)]
-		class += "+bad-prefix"
+		class = "bad-prefix"
 	}
 	text = vC32RefAddressString(prefix, spend, view, sumPrefix)
 	switch shape {
@@ -699,18 +709,19 @@ func (s *vC32State) craftedAddress(pool []vC32Wallet) {
 		}
 		sum := sha3.Sum256(append([]byte("XIN"), payload...))
 		text = "XIN" + vC32RefB58(append(payload, sum[:4]...))
-		class += "+payload-length-off-by-one"
+		class = "payload-length-off-by-one"
 	case 4: // trailing bytes after a complete payload
 		payload := append(append([]byte{}, spend...), view...)
 		sum := sha3.Sum256(append([]byte("XIN"), payload...))
 		payload = append(payload, sum[:4]...)
 		text = "XIN" + vC32RefB58(append(payload, vC32RandBytes(rng, 1+rng.Intn(3))...))
-		class += "+trailing-bytes"
+		class = "trailing-bytes"
 	case 5: // wrong checksum
 		payload := append(append([]byte{}, spend...), view...)
 		text = "XIN" + vC32RefB58(append(payload, vC32RandBytes(rng, 4)...))
-		class += "+random-checksum"
+		class = "random-checksum"
 	}
+	s.r.Count("crafted_keys_"+kclass, 1)
 	if s.tryAddress(text, class, nil) {
 		s.r.Count("crafted_accepted", 1)
 		s.r.Nontrivial("ca" + text)
@@ -833,7 +844,7 @@ func TestVerif_C32(t *testing.T) {
 	zeroLead := 0
 	ok := s.guard("wallet-generation", "seed", nil, func() {
 		for len(pool) < poolSize {
-			pool = append(pool, vC32RandAddress(rng))
+			pool = append(pool, s.randAddress())
 		}
 		want := r.N(40, 400)
 		for tries := 0; zeroLead < want && tries < want*600; tries++ {
@@ -890,7 +901,7 @@ func TestVerif_C32(t *testing.T) {
 		if i < len(pool) {
 			w = pool[len(pool)-1-i] // the leading-zero wallets first
 		} else {
-			w = vC32RandAddress(rng)
+			w = s.randAddress()
 		}
 		var text string
 		if !s.guard("common.Address.String", w.class, map[string]any{"public_spend": w.addr.PublicSpendKey.String()}, func() { text = w.addr.String() }) {
